@@ -45,8 +45,8 @@ func (w *World) startFeed(fc FeedCfg, backfill uint64, dump bool, checkpoint str
 	c := &Collector{Cfg: fc, w: w, term: make(chan bool), done: make(chan struct{})}
 	c.cond = sync.NewCond(&c.mu)
 	id := fmt.Sprintf("feed%d", atomic.AddInt64(&feedSerial, 1))
-	if checkpoint != "" {
-		id = "cpfeed"
+	if checkpoint == "cp" {
+		id = "cpfeed" // (C15's scripts resume one feed by its ID)
 	}
 	args := sgbucket.FeedArguments{ID: id, Backfill: backfill, Dump: dump, KeysOnly: fc.KeysOnly, Terminator: c.term, DoneChan: c.done, CheckpointPrefix: checkpoint}
 	cb := func(ev sgbucket.FeedEvent) bool {
@@ -146,6 +146,28 @@ func waitCond(cond *sync.Cond, d time.Duration) {
 }
 
 // take removes and returns the collected events.
+// takeBackfill waits for the end-of-backfill marker and removes everything up to it from the
+// collector (what follows is the live part of the feed).
+func (c *Collector) takeBackfill(timeout time.Duration) ([]sgbucket.FeedEvent, bool) {
+	deadline := time.Now().Add(timeout)
+	for {
+		c.mu.Lock()
+		for i, ev := range c.evs {
+			if ev.Opcode == sgbucket.FeedOpEndBackfill {
+				out := append([]sgbucket.FeedEvent(nil), c.evs[:i+1]...)
+				c.evs = append([]sgbucket.FeedEvent(nil), c.evs[i+1:]...)
+				c.mu.Unlock()
+				return out, true
+			}
+		}
+		c.mu.Unlock()
+		if time.Now().After(deadline) {
+			return nil, false
+		}
+		time.Sleep(2 * time.Millisecond)
+	}
+}
+
 func (c *Collector) take() []sgbucket.FeedEvent {
 	c.mu.Lock()
 	defer c.mu.Unlock()
@@ -227,11 +249,29 @@ func (r *Run) StartFeedStep(op Op) {
 	defer func() { r.Trace = append(r.Trace, tr) }()
 	r.SyncFeeds() // everything so far is settled: the new feed owes nothing for it
 	keysOnly, _ := op.Arg["keysOnly"].(bool)
-	c, err := w.StartLiveFeed(FeedCfg{H: op.H, C: op.C, KeysOnly: keysOnly})
+	withBackfill, _ := op.Arg["backfill"].(bool)
+	backfill := uint64(sgbucket.FeedNoBackfill)
+	if withBackfill {
+		backfill = 0 // a live feed that first replays what is there (C09), then goes on live (C08)
+	}
+	c, err := w.startFeed(FeedCfg{H: op.H, C: op.C, KeysOnly: keysOnly}, backfill, false, "")
 	if err != nil {
 		r.dev("feed.start", []string{"C08"}, "StartDCPFeed on %s through handle %d failed: %v", w.Cfg.Colls[op.C], op.H, err)
 		tr.Outcome = "DEVIATION"
 		return
+	}
+	if withBackfill {
+		evs, ok := c.takeBackfill(30 * time.Second)
+		if !ok {
+			r.dev("backfill.done", []string{"C09"}, "a live feed started with a backfill never delivered its end-of-backfill marker")
+			tr.Outcome = "DEVIATION"
+		} else {
+			nDev := len(r.Devs)
+			r.checkBackfillEvents(evs, op.C, 0, keysOnly)
+			if len(r.Devs) > nDev {
+				tr.Outcome = "DEVIATION"
+			}
+		}
 	}
 	w.Feeds = append(w.Feeds, c)
 }
@@ -485,7 +525,6 @@ func firstWord(s string) string {
 // is a faithful snapshot of the model.
 func (r *Run) Backfill(h, ci int, from uint64, keysOnly bool) {
 	w := r.W
-	m := w.Model
 	c09 := []string{"C09"}
 	col, err := w.startFeed(FeedCfg{H: h, C: ci, KeysOnly: keysOnly}, from, true, "")
 	tr := StepTrace{Op: Op{K: "Backfill", H: h, C: ci, Arg: map[string]any{"from": from, "keysOnly": keysOnly}}, Outcome: "snapshot"}
@@ -508,6 +547,21 @@ func (r *Run) Backfill(h, ci int, from uint64, keysOnly bool) {
 	}
 	evs := col.take()
 	nDev := len(r.Devs)
+	r.checkBackfillEvents(evs, ci, from, keysOnly)
+	if col.afterDone.Load() > 0 {
+		r.dev("feed.afterdone", []string{"C16"}, "dump feed callback invoked %d times after its done channel closed", col.afterDone.Load())
+	}
+	if len(r.Devs) > nDev {
+		tr.Outcome = "DEVIATION"
+	}
+}
+
+// checkBackfillEvents: the events between (and including) the backfill markers of a feed started
+// from CAS `from` on collection ci are a faithful snapshot of the model's documents.
+func (r *Run) checkBackfillEvents(evs []sgbucket.FeedEvent, ci int, from uint64, keysOnly bool) {
+	w := r.W
+	m := w.Model
+	c09 := []string{"C09"}
 	if len(evs) < 2 || evs[0].Opcode != sgbucket.FeedOpBeginBackfill || evs[len(evs)-1].Opcode != sgbucket.FeedOpEndBackfill {
 		r.dev("backfill.markers", c09, "dump feed events are not bracketed by begin/end-backfill markers (%d events)", len(evs))
 	}
@@ -566,11 +620,5 @@ func (r *Run) Backfill(h, ci int, from uint64, keysOnly bool) {
 		if seen[k] != want {
 			r.dev("backfill.complete", c09, "backfill from %#x delivered %d events for %s/%q (state %s), expected %d", from, seen[k], w.Cfg.Colls[ci], k, st, want)
 		}
-	}
-	if col.afterDone.Load() > 0 {
-		r.dev("feed.afterdone", []string{"C16"}, "dump feed callback invoked %d times after its done channel closed", col.afterDone.Load())
-	}
-	if len(r.Devs) > nDev {
-		tr.Outcome = "DEVIATION"
 	}
 }
